@@ -31,7 +31,7 @@ ASSUMPTIONS = ["durability model is process death (what the kernel was handed su
                "ordering is not demanded", "stray temporary files next to data.json are permitted",
                "content equality is equality of the parsed JSON (NaN-aware), not byte equality"]
 PROBES = ["kill_mid_write", "kill_at_open", "kill_at_close_or_replace", "interrupt_in_save", "history_nonempty",
-          "many_events", "fanout_save", "e2e_solve_command"]
+          "many_events", "fanout_save", "e2e_solve_command", "large_results_file"]
 TIERS = {
     "quick": {"runs": 2500, "wall": 40, "batch": 4, "shrink_s": 40},
     "thorough": {"runs": 500000, "wall": 1200, "batch": 8, "shrink_s": 120},
@@ -101,6 +101,8 @@ def _e2e_victim(sim: Sim, model_dir: str, name: str):
 
 
 def _run(sim: Sim, fs: SimFS, save_mod, fanout: bool, e2e: bool = False) -> None:
+    # byte-granular raw writes (tiny buffer + write-through) are not combined with 100 KiB results: cost only
+    large_ok = not (fs.write_through and fs.buffer_size in (1, 16))
     model_dir = os.path.join(fs.root, "model") if fanout else fs.root
     target_rel = os.path.join("model", "data.json") if fanout else "data.json"
     used: list[str] = []
@@ -123,7 +125,7 @@ def _run(sim: Sim, fs: SimFS, save_mod, fanout: bool, e2e: bool = False) -> None
                 procs.switch(sim.choose(nprocs, "saving-process"))
                 restub()
             name = sm.draw_name(sim, used, want_new=True)
-            out = sm.draw_output(sim, special=True, max_rows=8, max_cols=8)
+            out = sm.draw_output(sim, special=True, max_rows=8, max_cols=8, large_den=40 if large_ok else 0)
             fs.begin_op()
             _do_save(save_mod, fs, fanout, model_dir, name, out)
             used.append(name)
@@ -136,7 +138,7 @@ def _run(sim: Sim, fs: SimFS, save_mod, fanout: bool, e2e: bool = False) -> None
     if not ok:
         sim.fail("C20.fault_free_history_unparseable", prev)
     victim_name = sm.draw_name(sim, used, want_new=True)
-    victim = sm.draw_output(sim, special=True, max_rows=10, max_cols=10)
+    victim = sm.draw_output(sim, special=True, max_rows=10, max_cols=10, large_den=8 if large_ok else 0)
     if e2e:
         victim_name = victim_name or "run"
         do_victim = _e2e_victim(sim, model_dir, victim_name)
@@ -153,21 +155,25 @@ def _run(sim: Sim, fs: SimFS, save_mod, fanout: bool, e2e: bool = False) -> None
     if not ok or new is None or victim_name not in new or (prev or {}).keys() - new.keys():
         sim.fail("C20.fault_free_save_incomplete", {"parse": ok, "names": sorted(new) if ok and new else None})
     sim.op("victim-learn", victim_name, len(events))
-    if len(events) > 48:
+    big = len(new_raw or b"") > 20000  # each crash point re-executes the save: keep big files affordable
+    if big:
+        sim.probe("large_results_file")
+    huge = len(events) > 2000  # tens of thousands of tiny raw writes per re-execution
+    if len(events) > (12 if big else 48):
         sim.probe("many_events")
-        idxs = sorted(set([0, 1, 2, len(events) - 3, len(events) - 2, len(events) - 1]) |
-                      {sim.choose(len(events), "sample-event") for _ in range(30)})
+        idxs = sorted(set([0, len(events) - 2, len(events) - 1]) |
+                      {sim.choose(len(events), "sample-event") for _ in range(3 if huge else (6 if big else 30))})
         idxs = [i for i in idxs if 0 <= i < len(events)]
     else:
         idxs = list(range(len(events)))
     canon_prev = sm.canon(prev) if prev is not None else None
     canon_new = sm.canon(new)
-    fs.log_to_sim = True
+    fs.log_to_sim = len(events) <= 300  # thousands of tiny raw writes: log faults and verdicts only
     for e in idxs:
         kind, rel, size = events[e]
         plans = [Plan("kill_before", e), Plan("kill_after", e), Plan("interrupt", e)]
         if kind == "write" and size > 1:
-            offs = sorted({0, 1, size - 1, sim.choose(size, "offset")})
+            offs = sorted({0, size - 1, sim.choose(size, "offset")} | (set() if big else {1}))
             plans += [Plan("kill_partial", e, j) for j in offs if j < size]
         if sim.flip(1, 6, "ioerror"):
             plans.append(Plan("ioerror", e))
